@@ -9,6 +9,12 @@
 //!
 //! Message ids: 1/2/3 = request/reply/final emitted in this run, 11/12/13 = the same recorded from
 //! an earlier complete handshake of the same identities (replay material).
+//!
+//! Every delivery can additionally REMOVE properties from the token (`strip`, after the alteration): the
+//! properties whose inclusion the standard leaves to the sender (hash_c1, hash_c2, dh1 of a reply, dh1 / dh2
+//! of a final) as the model enumerates them, or any property (`rm:<name>`).  The driver logs, as facts
+//! from a property-by-property comparison with the message the token derives from, which properties
+//! changed (`chg`) and which are gone (`rm`); Trace_Handshake.tla classifies the delivery from those.
 
 use std::{collections::HashMap, sync::OnceLock};
 
@@ -34,6 +40,9 @@ pub struct Act {
     pub pos: Option<usize>,
     #[serde(default)]
     pub mask: Option<u8>,
+    /// properties removed from the token after the alteration
+    #[serde(default)]
+    pub strip: Vec<String>,
 }
 
 fn yes() -> bool {
@@ -155,14 +164,37 @@ fn kind_of(mid: u32) -> &'static str {
     }
 }
 
-/// every alteration the receiver is able to notice: all of them except bytes of dh1 / challenge1 of a request
-fn detectable(kind: &str) -> Vec<String> {
+/// properties whose inclusion DDS Security 1.1 (Tables 49-51) leaves to the sender
+fn optional_of(kind: &str) -> &'static [&'static str] {
+    match kind {
+        "req" => &["hash_c1"],
+        "reply" => &["hash_c1", "hash_c2", "dh1"],
+        _ => &["hash_c1", "hash_c2", "dh1", "dh2"],
+    }
+}
+
+/// every alteration the receiver is able to notice although the properties in `strip` are removed afterwards:
+/// all of them except bytes of dh1 / challenge1 of a request, alterations of a property that is removed anyway and,
+/// for a request without hash_c1, the c.* properties nothing else protects
+fn detectable(kind: &str, strip: &[String]) -> Vec<String> {
+    let gone = |f: &str| strip.iter().any(|s| s == f);
+    let unprotected = kind == "req" && gone("hash_c1");
     let mut v: Vec<String> = fields_of(kind)
         .iter()
         .filter(|f| !(kind == "req" && (**f == "dh1" || **f == "challenge1")))
+        .filter(|f| !gone(f))
+        .filter(|f| !(unprotected && ["c.perm", "c.pdata", "c.dsign_algo"].contains(*f)))
         .map(|f| format!("b:{f}"))
         .collect();
-    v.extend(symbolic_of(kind).iter().map(|s| s.to_string()));
+    v.extend(
+        symbolic_of(kind)
+            .iter()
+            // trunc picks its property by position, swap_algo is caught by hash_c1 only
+            .filter(|s| strip.is_empty() || (**s != "trunc" && !(unprotected && **s == "swap_algo")))
+            .map(|s| s.to_string()),
+    );
+    // removal of a property the parsers require (everything but the two hashes)
+    v.extend(fields_of(kind).iter().filter(|f| !f.starts_with("hash_c") && !gone(f)).map(|f| format!("rm:{f}")));
     v
 }
 
@@ -248,6 +280,11 @@ fn apply_alt(fx: &Fx, old: &Old, base: &Tok, by_a: bool, alt: &str, pos: usize, 
             }
             t = auth_rig::forge_final(base, &fx.third.1).ok()?;
         }
+        other if other.starts_with("rm:") => {
+            let name = other.strip_prefix("rm:")?;
+            t.get(name)?;
+            t.remove(name);
+        }
         other => {
             let name = other.strip_prefix("b:")?;
             let mut v = t.get(name)?.clone();
@@ -328,15 +365,18 @@ impl<'a> Run<'a> {
             alt = "none".into();
         }
         if alt == "det" {
-            let c = detectable(kind);
+            let c = detectable(kind, &act.strip);
             alt = c[self.rng.gen_range(0..c.len())].clone();
         }
         let pos = act.pos.unwrap_or_else(|| self.rng.gen_range(0..4096));
         let mask = act.mask.unwrap_or_else(|| 1u8 << self.rng.gen_range(0..8));
         let by_a = kind != "reply";
-        let Some(msg) = apply_alt(self.fx, &self.old, &base, by_a, &alt, pos, mask) else { return };
+        let Some(mut msg) = apply_alt(self.fx, &self.old, &base, by_a, &alt, pos, mask) else { return };
         // an alteration that leaves the token unchanged is no alteration
         let alt = if msg == base { "none".to_string() } else { alt };
+        for s in &act.strip {
+            msg.remove(s);
+        }
         let call = match self.ds[to] {
             "ReqMsg" => "begin_reply",
             "Reply" | "Final" => "process",
@@ -382,23 +422,42 @@ impl<'a> Run<'a> {
                 }
             }
         }
-        // which fields of the delivered token differ from the message it derives from (a fact, not a class)
+        // which properties of the delivered token differ from the message it derives from (facts, not classes):
+        // chg = value differs / property added / class id differs, rm = property no longer there
         let mut diff: Vec<String> = vec![];
+        let mut chg: Vec<String> = vec![];
+        let mut rm: Vec<String> = vec![];
         if msg.class_id != base.class_id {
             diff.push("class".into());
+            chg.push("class".into());
         }
         for (n, v) in &base.props {
-            if msg.get(n) != Some(v) {
-                diff.push(n.clone());
+            match msg.get(n) {
+                None => {
+                    if !rm.contains(n) {
+                        rm.push(n.clone());
+                    }
+                    diff.push(n.clone());
+                }
+                Some(x) if x != v => {
+                    chg.push(n.clone());
+                    diff.push(n.clone());
+                }
+                _ => {}
             }
         }
         for (n, _) in &msg.props {
             if base.get(n).is_none() {
                 diff.push(format!("+{n}"));
+                chg.push(format!("+{n}"));
             }
         }
+        // property order / multiplicity is part of the token too
+        if chg.is_empty() && rm.is_empty() && msg != base {
+            chg.push("order".into());
+        }
         let diff = diff.join(",");
-        let mut e = json!({"ev":"Dlv","to":pname(to),"mid":act.mid,"k":kind,"alt":alt,"diff":diff,"pos":pos,"mask":mask,"call":call,"out":out,"emit":emit,"err":err});
+        let mut e = json!({"ev":"Dlv","to":pname(to),"mid":act.mid,"k":kind,"alt":alt,"diff":diff,"chg":chg,"rm":rm,"pos":pos,"mask":mask,"call":call,"out":out,"emit":emit,"err":err});
         self.outputs(&mut e);
         ev.push(e);
     }
@@ -406,7 +465,7 @@ impl<'a> Run<'a> {
     /// the genuine exchange carries on: every outstanding genuine message is delivered once
     fn continuation(&mut self, ev: &mut Vec<Value>) {
         self.req(ev);
-        let d = |to: &str, mid: u32| Act { a: "Dlv".into(), to: to.into(), mid, alt: "none".into(), pos: Some(0), mask: Some(1) };
+        let d = |to: &str, mid: u32| Act { a: "Dlv".into(), to: to.into(), mid, alt: "none".into(), pos: Some(0), mask: Some(1), strip: vec![] };
         if self.emitted[1].is_some() && self.ds[B] != "DoneR" {
             // B waits for the request, or answered something else before: the genuine request (again)
             let answered_genuine = ev.iter().any(|e| e["ev"] == "Dlv" && e["to"] == "B" && e["mid"] == 1 && e["alt"] == "none" && e["out"] == "acc");
@@ -457,11 +516,22 @@ pub fn run_one(k: usize, spec: &ARunSpec, ev: &mut Vec<Value>) -> Vec<Vec<u8>> {
 }
 
 fn dl(to: &str, mid: u32, alt: &str, pos: Option<usize>, mask: Option<u8>) -> Act {
-    Act { a: "Dlv".into(), to: to.into(), mid, alt: alt.into(), pos, mask }
+    Act { a: "Dlv".into(), to: to.into(), mid, alt: alt.into(), pos, mask, strip: vec![] }
+}
+
+/// the same delivery with properties removed
+fn dls(to: &str, mid: u32, alt: &str, pos: Option<usize>, mask: Option<u8>, strip: &[&str]) -> Act {
+    Act { strip: strip.iter().map(|s| s.to_string()).collect(), ..dl(to, mid, alt, pos, mask) }
 }
 
 fn rq() -> Act {
-    Act { a: "Req".into(), to: "A".into(), mid: 0, alt: "none".into(), pos: None, mask: None }
+    Act { a: "Req".into(), to: "A".into(), mid: 0, alt: "none".into(), pos: None, mask: None, strip: vec![] }
+}
+
+/// all non-empty subsets of the sender-optional properties of a message kind
+fn strips_of(kind: &str) -> Vec<Vec<&'static str>> {
+    let o = optional_of(kind);
+    (1u32..(1 << o.len())).map(|m| o.iter().enumerate().filter(|(i, _)| m & (1 << i) != 0).map(|(_, p)| *p).collect()).collect()
 }
 
 /// genuine prefix that brings the receiver of message `mid` into the state that waits for it
@@ -517,6 +587,59 @@ fn sweep_specs(fx: &Fx, bits: usize, rng: &mut StdRng) -> Vec<ARunSpec> {
             }
         }
     }
+    // ---- presence of properties (strengthening round) -------------------------------------------------
+    for mid in [1u32, 2, 3] {
+        let kind = kind_of(mid);
+        let to = if mid == 2 { "A" } else { "B" };
+        // removal of each single property (required ones: an alteration; sender-optional ones: an equivalent copy)
+        for f in fields_of(kind) {
+            for target in ["A", "B"] {
+                let mut acts = prefix_for(mid);
+                acts.push(dl(target, mid, &format!("rm:{f}"), None, None));
+                v.push(ARunSpec { acts, seed: 0, cont: true });
+            }
+        }
+        // every message of this and of the earlier session, minus every non-empty set of sender-optional
+        // properties, at the point where `mid` is awaited, to either party
+        for m2 in [1u32, 2, 3, 11, 12, 13] {
+            for st in strips_of(kind_of(m2)) {
+                for target in ["A", "B"] {
+                    let mut acts = prefix_for(mid);
+                    acts.push(dls(target, m2, "none", None, None, &st));
+                    v.push(ARunSpec { acts, seed: 0, cont: true });
+                }
+            }
+        }
+        // every symbolic alteration and one byte of every property (every byte when bits > 1), with the
+        // optional hashes (the properties the code really treats as optional) removed as well
+        let hashes: Vec<&str> = optional_of(kind).iter().copied().filter(|p| p.starts_with("hash_c")).collect();
+        for s in symbolic_of(kind) {
+            for pos in 0..(if *s == "trunc" { fields_of(kind).len() } else { 1 }) {
+                let mut acts = prefix_for(mid);
+                acts.push(dls(to, mid, s, Some(pos), Some(1), &hashes));
+                v.push(ARunSpec { acts, seed: 0, cont: true });
+            }
+        }
+        let sample = match mid {
+            1 => &old.req,
+            2 => &old.reply,
+            _ => &old.fin,
+        };
+        for base in [mid, mid + 10] {
+            for f in fields_of(kind) {
+                let len = sample.get(f).map(|x| x.len()).unwrap_or(0);
+                if len == 0 {
+                    continue;
+                }
+                let positions: Vec<usize> = if bits > 1 { (0..len).collect() } else { vec![rng.gen_range(0..len)] };
+                for pos in positions {
+                    let mut acts = prefix_for(mid);
+                    acts.push(dls(to, base, &format!("b:{f}"), Some(pos), Some(1u8 << rng.gen_range(0..8)), &hashes));
+                    v.push(ARunSpec { acts, seed: 0, cont: true });
+                }
+            }
+        }
+    }
     // composite forgeries: a foreign-CA / unbound insider initiator runs the whole exchange against B
     for (a1, a2) in [("foreign_full", "forge_final_foreign"), ("third_unbound", "forge_final_third"), ("foreign_cert", "forge_final_foreign")] {
         for base in [1u32, 11] {
@@ -548,7 +671,12 @@ fn random_schedule(rng: &mut StdRng, events: usize) -> ARunSpec {
             _ if kind == "req" => ["b:dh1", "b:challenge1"][rng.gen_range(0..2)].to_string(),
             _ => "det".to_string(),
         };
-        acts.push(dl(to, mid, &alt, None, None));
+        let mut act = dl(to, mid, &alt, None, None);
+        // a third of the deliveries lose a random set of sender-optional properties
+        if rng.gen_range(0..100) < 33 {
+            act.strip = optional_of(kind).iter().filter(|_| rng.gen_range(0..100) < 50).map(|p| p.to_string()).collect();
+        }
+        acts.push(act);
     }
     ARunSpec { acts, seed: rng.gen(), cont: true }
 }
